@@ -132,7 +132,7 @@ func init() {
 			return s
 		},
 		Run:  c17Run,
-		Rule: "(partial) 11 bodies (text, output tags of outer/data names, loop, conditional, let inside, counting marker, quotes/backslash, nested partial, nested partial with layout) x 7 data maps (none, empty, shadowing an outer name, fresh name, both, shadowing with nil, nil + fresh) x layout {none, layout, layout whose template itself uses a partial with a layout, .js layout} x content type {unset, text/html, application/javascript} x partial name extension {.html, .js, none} (under a JavaScript content type also below directory names that contain dots: ../shared/, ./, v1.2/, dir.js/, a.b/c.d/) x position (top level, inside for, inside if, inside a helper block, inside a user function): output equals the composition at string level of the same sources rendered by plush itself as standalone templates in the equivalent scope (JS case: JSEscapeString of it), a counting marker shows every insertion happened exactly once. (content) every sequence of <=4 items from {contentFor(c1){…}, contentFor(c2){…}, contentOf(c1|c2|undefined) with/without data and with/without default block}: contentFor emits nothing where defined, each contentOf emits the stored block rendered with its data in a child of the definition scope (or its default block, or the render fails when undefined), later definitions win. (absolute) 15 compositions (incl. a name carried by a wrapped Go context read in partials, a layout, nested partials, stored and default blocks) with literal expectations: partials nested two and three deep inside a partial that was given a layout (only that partial is wrapped); a list printed by an output tag and modified later in the same block (if / helper / contentFor / function / for body: printed as it was at the tag, like inline); a time printed inside blocks whose own context carries a TIME_FORMAT (contentOf data, default block, BlockWith(child)); empty blocks (a block helper with an empty / comment-only / silent block has a block that renders to nothing; empty contentOf default and contentFor blocks), outer variables, variables and data named like built-in helpers, data overriding and sibling isolation through partials nested three deep, layout of a nested partial, contentFor inside a partial, block helper inside a partial inside a loop. (blocks) block helpers using Block() / BlockWith(child) / calling Block() twice over the same bodies and placements: the string the helper received equals the inline rendering. Non-trivial: all cases with a non-text body or data.",
+		Rule: "(partial) 11 bodies (text, output tags of outer/data names, loop, conditional, let inside, counting marker, quotes/backslash, nested partial, nested partial with layout) x 7 data maps (none, empty, shadowing an outer name, fresh name, both, shadowing with nil, nil + fresh) x layout {none, layout, layout whose template itself uses a partial with a layout, .js layout} x content type {unset, text/html, application/javascript, text/javascript; charset=utf-8, application/x-javascript} x partial name extension {.html, .js, none} (under a JavaScript content type also below directory names that contain dots: ../shared/, ./, v1.2/, dir.js/, a.b/c.d/) x position (top level, inside for, inside if, inside a helper block, inside a user function): output equals the composition at string level of the same sources rendered by plush itself as standalone templates in the equivalent scope (JS case: JSEscapeString of it), a counting marker shows every insertion happened exactly once. (content) every sequence of <=4 items from {contentFor(c1){…}, contentFor(c2){…}, contentOf(c1|c2|undefined) with/without data and with/without default block}: contentFor emits nothing where defined, each contentOf emits the stored block rendered with its data in a child of the definition scope (or its default block, or the render fails when undefined), later definitions win. (absolute) 15 compositions (incl. a name carried by a wrapped Go context read in partials, a layout, nested partials, stored and default blocks) with literal expectations: partials nested two and three deep inside a partial that was given a layout (only that partial is wrapped); a list printed by an output tag and modified later in the same block (if / helper / contentFor / function / for body: printed as it was at the tag, like inline); a time printed inside blocks whose own context carries a TIME_FORMAT (contentOf data, default block, BlockWith(child)); empty blocks (a block helper with an empty / comment-only / silent block has a block that renders to nothing; empty contentOf default and contentFor blocks), outer variables, variables and data named like built-in helpers, data overriding and sibling isolation through partials nested three deep, layout of a nested partial, contentFor inside a partial, block helper inside a partial inside a loop. (blocks) block helpers using Block() / BlockWith(child) / calling Block() twice over the same bodies and placements: the string the helper received equals the inline rendering. Non-trivial: all cases with a non-text body or data.",
 		Bound: func(th bool) string {
 			if th {
 				return "all listed combinations; content programs of <=5 items"
@@ -158,10 +158,13 @@ func c17Run(t *engine.T, shard string) {
 		fmt.Sscan(arg, &bi)
 		body := c17Bodies[bi]
 		for _, ext := range []string{".html", ".js", ""} {
-			for _, ct := range []string{"", "text/html", "application/javascript"} {
+			for _, ct := range []string{"", "text/html", "application/javascript", "text/javascript; charset=utf-8", "application/x-javascript"} {
 				for _, d := range c17Data {
 					for _, lay := range c17Layouts {
 						for _, pl := range c17Places {
+							if ct != "application/javascript" && strings.Contains(ct, "javascript") && (pl.name != "top" && pl.name != "in-for" || d.m != nil && d.name != "fresh") {
+								continue // the other JavaScript content types: two placements, two data maps
+							}
 							for _, dir := range []string{"", "../shared/", "./", "v1.2/", "dir.js/", "a.b/c.d/"} {
 								if dir != "" && (!strings.Contains(ct, "javascript") || pl.name != "top" || (d.m != nil && d.name != "fresh")) {
 									continue // names with dots in their directory part: what counts is the extension of the last element
@@ -344,6 +347,16 @@ func c17Absolute(t *engine.T) {
 		}
 		return "equal-expected", nil
 	})
+	// a block helper whose argument is itself a block helper call that ended in continue / break still receives its
+	// own whole block (the loop is continued / left after the statement)
+	cases = append(cases, []struct{ name, src, want string }{
+		{"contentOf default block after an argument whose block ended in continue", `<%= for (i) in [1, 2, 3] { %><%= contentOf("missing", {"v": contentOf("gone") { %>s<% continue %>never<% }}) { %>A<%= v %>B<%= i %>C<% } %>|<% } %>`, "AsB1CAsB2CAsB3C"},
+		{"contentOf default block after an argument whose block ended in break", `<%= for (i) in [1, 2, 3] { %><%= contentOf("missing", {"v": contentOf("gone") { %>s<% break %>never<% }}) { %>A<%= v %>B<%= i %>C<% } %>|<% } %>`, "AsB1C"},
+		{"block helper after an argument whose block ended in continue", `<%= for (i) in [1, 2] { %><%= wraparg(recblk() { %>s<% continue %>n<% }) { %>A<%= i %>B<%= i %><% } %>|<% } %>`, "({s}:A1B1)({s}:A2B2)"},
+		{"BlockWith helper after an argument whose block ended in continue", `<%= for (i) in [1, 2] { %><%= wrapargw(recblk() { %>s<% if (true) { continue } %>n<% }) { %>A<%= i %>B<%= u %><% } %>|<% } %>`, "({s}:A1Bfrom-helper)({s}:A2Bfrom-helper)"},
+		{"stored block run by contentOf after an argument whose block ended in continue", `<% contentFor("st9") { %>X<%= v %>Y<%= v %>Z<% } %><%= for (i) in [1, 2] { %><%= contentOf("st9", {"v": recblk() { %>s<% continue %>n<% }}) %>|<% } %>`, "X{s}Y{s}ZX{s}Y{s}Z"},
+		{"partial after a data value whose block ended in continue", `<%= for (i) in [1, 2] { %><%= partial("two.html", {"d": recblk() { %>s<% continue %>n<% }}) %>|<% } %>`, "[{s}/{s}][{s}/{s}]"},
+	}...)
 	for _, c := range cases {
 		c := c
 		t.Case("absolute "+c.name+" "+q(c.src), true, func() (string, *engine.Fail) {
@@ -367,6 +380,7 @@ func c17Absolute(t *engine.T) {
 			e.texts["o3.html"] = `p[<%= partial("o2.html") %>|<%= partial("leaf.html", {"layout": "lm.html"}) %>]`
 			e.texts["cf.html"] = `<% contentFor("pc") { %>[in]<% } %><%= contentOf("pc") %>`
 			e.texts["bh.html"] = `<%= recblk() { %><%= e %><% } %>`
+			e.texts["two.html"] = `[<%= d %>/<%= d %>]`
 			ctx := e.context()
 			ctx.Set("env", "staging") // a variable named like a built-in helper
 			ctx.Set("when", time.Date(2021, 3, 4, 5, 6, 7, 0, time.UTC))
@@ -375,6 +389,16 @@ func c17Absolute(t *engine.T) {
 				child.Set("TIME_FORMAT", "01/2006")
 				b, err := help.BlockWith(child)
 				return template.HTML("{" + b + "}"), err
+			})
+			ctx.Set("wraparg", func(a template.HTML, help plush.HelperContext) (template.HTML, error) {
+				b, err := help.Block()
+				return "(" + a + ":" + template.HTML(b) + ")", err
+			})
+			ctx.Set("wrapargw", func(a template.HTML, help plush.HelperContext) (template.HTML, error) {
+				ch := help.New()
+				ch.Set("u", "from-helper")
+				b, err := help.BlockWith(ch)
+				return "(" + a + ":" + template.HTML(b) + ")", err
 			})
 			ctx.Set("hasb", func(help plush.HelperContext) (string, error) {
 				if !help.HasBlock() {
